@@ -456,6 +456,8 @@ def run_case(case):
                 if not any(t.get("fault") for t in M.TRACE.trace):
                     continue
                 s2 = M.safe_call(m.solve)
+                if any(t.get("status") == "kTimeLimit" and not t.get("fault") for t in M.TRACE.trace):
+                    obs["c13.clean_resolve_time_limited"] += 1; continue      # (heavy-tailed MILP: the clean run itself hit the solver limit; no verdict)
                 obs["c13.fault_then_clean_resolve"] += 1
                 what = f"first solve() with invocation {j} ending {st} ({mode}), then a clean solve() of the same object"
                 if s2[0] != "ok":
